@@ -80,8 +80,8 @@ def run(rep, info, model, tier, seed):
         rep.count("stream_kind", kind)
     # exhaustive cut sets of short frame sequences
     exh = []
-    nshort = 10 if tier == "quick" else 40
-    maxlen = 9 if tier == "quick" else 12
+    nshort = 10 if tier == "quick" else 24
+    maxlen = 9 if tier == "quick" else 11
     tries = 0
     while len(exh) < nshort and tries < 2000:
         tries += 1
